@@ -214,7 +214,19 @@ type lMark struct {
 	Own       bool `json:"own"`        // the statement is the first token of its line
 }
 
+// lArmMark: the line of a match arm.
+type lArmMark struct {
+	LineStart int  `json:"line_start"`
+	Off       int  `json:"off"`     // column of the block that contains the match (the offside line of its arms)
+	Bar       int  `json:"bar"`     // column of the '|'
+	Str       bool `json:"string"`  // arm of a string match
+	Lit       bool `json:"lit"`     // string literal pattern
+	Def       bool `json:"default"` // | _ ->
+	Index     int  `json:"index"`
+}
+
 type lay struct {
+	armMarks []lArmMark
 	r        *Rng
 	o        layOpt
 	b        []byte
@@ -512,9 +524,13 @@ func (l *lay) expr(e *lEx, off int) int {
 		l.gap()
 		l.put("with")
 		bd := 0
-		for _, a := range e.Arms {
+		strMatch := len(e.Arms) > 0 && len(e.Arms[0].Pat) > 0 && strings.HasPrefix(e.Arms[0].Pat[0], "\"")
+		for ai, a := range e.Arms {
 			l.eol()
-			l.indent(off + l.n(4))
+			bar := off + l.n(4)
+			l.indent(bar)
+			l.armMarks = append(l.armMarks, lArmMark{LineStart: l.ls, Off: off, Bar: bar, Str: strMatch,
+				Lit: len(a.Pat) > 0 && strings.HasPrefix(a.Pat[0], "\""), Def: len(a.Pat) == 1 && a.Pat[0] == "_", Index: ai})
 			l.put("|")
 			l.gap()
 			l.words(a.Pat)
